@@ -45,8 +45,6 @@ def sc_gmm_mstep(B, C, D, trainer, um, uv, uw, zero=None):
         m, MP = make_gmm(B, C, D, "vector", simplex=True, update_means=um, update_variances=uv, update_weights=uw)
     else:
         ubm, MP = make_gmm(B, C, D, "vector", pre="u", simplex=True)
-        for d in range(D):
-            B.assume(MP["raw"]["thr"][d] >= 2.220446049250313e-16)
         m = gmm.GMMMachine(C, trainer="map", ubm=ubm, update_means=um, update_variances=uv, update_weights=uw, map_relevance_factor=B.real("r", pos=True))
     s, SP = degenerate_stats(B, C, D)
     if zero is not None:
